@@ -1009,7 +1009,7 @@ var foreignProbes = []any{[]int{1}, map[string]int{"a": 1}, func() {}, struct{ S
 
 // ---- program generators ---------------------------------------------------------
 
-var keyPool = []string{"", "a", "b", "c", "a.b", "#1", "k\"q", "line\nbreak", "ключ", "😀", strings.Repeat("long", 20), ".", "a#0", " ", "é", "ÿ", "caf\u00e9", "\ufffd", "a*", "?", "[a-c]", "*"}
+var keyPool = []string{"", "a", "b", "c", "a.b", "#1", "k\"q", "line\nbreak", "ключ", "😀", strings.Repeat("long", 20), ".", "a#0", " ", "é", "ÿ", "caf\u00e9", "\ufffd", "a*", "?", "[a-c]", "*", ".a", ".a.b", "#0"}
 
 func genKeyFromPool(t *rapid.T) string {
 	if oneIn(t, 10, "freshkey") {
